@@ -13,6 +13,21 @@ def rotate(items, seed):
     return items[k:] + items[:k]
 
 
+def keep(i, k):
+    """deterministic, decorrelated 1-in-k selection of index i (a plain
+    stride over a list that alternates categories can drop a whole category)"""
+    if k <= 1:
+        return True
+    return (((i * 2654435761) & 0xffffffff) >> 11) % k == 0
+
+
+def thin(items, k):
+    items = list(items)
+    if k <= 1:
+        return items
+    return [x for i, x in enumerate(items) if keep(i, k)]
+
+
 def add_algs(cases, algs_fn, feasible_only=True):
     out = []
     for scope, case in cases:
